@@ -9,5 +9,5 @@ CONSTANTS
   LevelsSmall = {1, 4, 6}
   MaxCrit = 2
   TripleSlots = {}
-INVARIANTS DisabledNeverMatches NegationInverts NoExtNeverHolds Conjunction OneFailing TypeRules LiteralIsExact IgnoreCaseAdds
+INVARIANTS DisabledNeverMatches NegationInverts NoExtNeverHolds Conjunction OneFailing TypeRules LiteralIsExact IgnoreCaseAdds LcSetSemantics
 CHECK_DEADLOCK FALSE
